@@ -64,7 +64,8 @@ class QueryPlanner:
                     integration_name = predictor['integration_name']
                 else:
                     integration_name = self.predictor_namespace
-                    predictor['integration_name'] = integration_name
+                    # (on a copy: the metadata belongs to the caller, who may use it with another namespace next time)
+                    predictor = dict(predictor, integration_name=integration_name)
                 idx = f'{integration_name}.{predictor["name"]}'.lower()
                 self.predictor_info[idx] = predictor
                 _projects.add(integration_name.lower())
@@ -76,7 +77,7 @@ class QueryPlanner:
                         integration_name = predictor['integration_name']
                     else:
                         integration_name = self.predictor_namespace
-                        predictor['integration_name'] = integration_name
+                        predictor = dict(predictor, integration_name=integration_name)
                     name = f'{integration_name}.{name}'.lower()
                     _projects.add(integration_name.lower())
 
